@@ -136,6 +136,7 @@ class World:
         self.my_pings = {}  # harness pn -> dcid used (for acceptance)
         self.acked_by_e = set()  # harness pns acknowledged by E
         self.challenges = []  # PATH_CHALLENGE data not yet answered
+        self.boot_failed = False  # a monitor fired on the handshake traffic itself
         self._boot()
 
     # ------------------------------------------------------------- bootstrap
@@ -172,6 +173,10 @@ class World:
             bot.pending = []
         if not bot.E.hs_done:
             raise core.HarnessError("bootstrap: handshake not complete on E (%s/%s)" % (role, self.base))
+        self._limits()  # what E issued during the handshake already counts
+        if self.viol:
+            self.boot_failed = True
+            return
         self.settle(boot=True)
         if self.bot.E.terminated is not None or self.viol:
             raise core.HarnessError("bootstrap failed: %r %r" % (self.bot.E.terminated, self.viol))
@@ -448,7 +453,7 @@ class World:
     def epilogue(self):
         """Eventual obligations, evaluated destructively on this throw-away endpoint."""
         bot = self.bot
-        if self.exc is not None:
+        if self.exc is not None or self.boot_failed:
             return
         if self.is_closed():
             self._do(lambda: bot.drive_to_end())
@@ -620,6 +625,11 @@ def _expand_chunk(chunk):
 def bfs(role, base, alpha, depth, max_states=None, time_cap=None):
     t0 = time.time()
     root = World(role, base, alpha)
+    if root.boot_failed:
+        viols = {core.stable_hash(sig): (sig, what, []) for sig, what in root.viol}
+        stats = dict(states=1, transitions=0, runs=0, depth_done=0, capped=None, closed_states=0,
+                     closure=False, per_level=[], wall=0.0)
+        return stats, {("boot_violation",)}, viols, []
     seen = {("open", hashlib.sha256(repr(root.key()).encode()).digest())}
     frontier = [[]]
     stats = dict(states=1, transitions=0, runs=0, depth_done=0, capped=None, closed_states=0)
@@ -676,10 +686,10 @@ PLAN = {
     "quick": [
         ("server", "fresh", "full", 2), ("client", "fresh", "full", 2),
         ("server", "full", "full", 2), ("client", "full", "full", 2),
-        ("server", "fresh", "medium", 4), ("client", "fresh", "medium", 4),
-        ("server", "full", "medium", 3), ("client", "full", "medium", 3),
-        ("server", "fresh", "small", 5), ("client", "fresh", "small", 5),
-        ("server", "full", "small", 4), ("client", "full", "small", 4),
+        ("server", "fresh", "medium", 3), ("client", "fresh", "medium", 3),
+        ("server", "full", "medium", 3), ("client", "full", "medium", 2),
+        ("server", "fresh", "small", 4), ("client", "fresh", "small", 4),
+        ("server", "full", "small", 3), ("client", "full", "small", 3),
     ],
     "thorough": [
         ("server", "fresh", "full", 3), ("client", "fresh", "full", 2),
@@ -731,7 +741,7 @@ def run(ctx):
             ctx.sample({"part": name, "history": h})
         for k, (sig, what, hist) in viols.items():
             all_viols.append((len(hist), name, sig, what, dict(role=role, base=base, alpha=alpha, history=hist)))
-    if len(outcomes) < 3:
+    if len(outcomes) < 3 and not all_viols:
         raise core.HarnessError("vacuous exploration: %d distinct outcomes" % len(outcomes))
     # shortest counterexample per signature first
     all_viols.sort(key=lambda v: (v[0], v[1], core.jdump(v[2], sort_keys=True)))
